@@ -439,6 +439,46 @@ func storageChild(a *Args) error {
 			return err
 		}
 		return st.Set(key, val)
+	case "setstale":
+		// The restarted accessory has the process id (and so the names of its temporary files) of the one that was killed:
+		// the temporary file this Set is going to use exists already and holds foreign bytes.  How the library names its
+		// temporary files is learnt from a probe write into a scratch directory.
+		scratch := mkTempDir("hcv-stale")
+		defer os.RemoveAll(scratch)
+		st0, err := util.NewFileStorage(scratch)
+		if err != nil {
+			return err
+		}
+		tmpName := ""
+		util.VerifCrashPoint = func(name string) {
+			if name == "set:tmp-created" && tmpName == "" {
+				if infos, err := os.ReadDir(scratch); err == nil && len(infos) == 1 {
+					tmpName = infos[0].Name()
+				}
+			}
+		}
+		st0.Set(key, []byte("probe"))
+		util.VerifCrashPoint = func(string) {}
+		i := len(tmpName)
+		for i > 0 && tmpName[i-1] >= '0' && tmpName[i-1] <= '9' {
+			i--
+		}
+		planted := 0
+		if tmpName != "" && i < len(tmpName) {
+			cnt, _ := strconv.Atoi(tmpName[i:])
+			junk := bytes.Repeat([]byte("STALE-"), 1000)
+			for k := 1; k <= 2; k++ {
+				if os.WriteFile(dir+"/"+tmpName[:i]+strconv.Itoa(cnt+k), junk, 0644) == nil {
+					planted++
+				}
+			}
+		}
+		fmt.Printf("stale temporary files planted: %d\n", planted)
+		st, err := util.NewFileStorage(dir)
+		if err != nil {
+			return err
+		}
+		return st.Set(key, val)
 	case "saveentity":
 		database, err := db.NewDatabase(dir)
 		if err != nil {
@@ -719,6 +759,23 @@ func followUps(dir, key string, id, k int) string {
 		got, has := readAll(dir)[key]
 		if !has || !bytes.Equal(got, v) {
 			return fmt.Sprintf("other: wrote %d bytes (%s), read %d", len(v), tok, len(got))
+		}
+	}
+	// once more by a process whose temporary file exists already (guard tmp_truncated of StorageCrash.tla: a process with
+	// the id of the killed one)
+	if self, err := os.Executable(); err == nil && k%4 == 1 {
+		v := valueFor("short", rngFor(int64(id), 100+10*k+9))
+		vf := dir + ".stale-value"
+		os.WriteFile(vf, v, 0644)
+		defer os.Remove(vf)
+		cmd := exec.Command(self, "storagechild", "--extra", "setstale|"+dir+"|"+key+"|"+vf)
+		cmd.Env = append(os.Environ(), "VERIF_CRASH_AT=0")
+		if out, err := cmd.CombinedOutput(); err != nil {
+			return "error: stale follow-up: " + err.Error() + " " + string(out)
+		}
+		got, has := readAll(dir)[key]
+		if !has || !bytes.Equal(got, v) {
+			return fmt.Sprintf("other: wrote %d bytes over a stale temporary file, read %d", len(v), len(got))
 		}
 	}
 	return "next"
